@@ -139,6 +139,7 @@ def worlds():
               [("gamma", -1.5, 0.25, True), ("beta", 0.125, 3.0, False)], {"beta": 0.75, "gamma": 1.0},
               what="two of three model parameters inferred, the log-scale one listed first, no initial states"),
         World("single", ["k"], ["A", "B"], [("k", 0.05, 4.0, False)], {"k": 1.5}, what="a single parameter"),
+        World("single-log", ["k"], ["A", "B"], [("k", -1.0, 0.75, True)], {"k": 2.0}, what="a single parameter on the log10 scale"),
         World("constrained-first-state", ["beta", "gamma"], ["S", "I", "R"],
               [("I", 0.0, 10.0, False), ("beta", 0.0, 2.0, False)], {"beta": 0.5, "I": 4.0}, constraint=(100.0, "S"),
               what="an initial state is inferred and the population size is conserved by adjusting the first state"),
@@ -396,6 +397,7 @@ def check_runs(repo, res, rule="R-ACCEPT"):
         for form in ("scalar", "list"):
             w = worlds()[0]
             tag = "continuation-cannot-raise-tolerance(%s)" % form
+            kind = kind2 = out = ft = tol2 = None
             try:
                 me, summ, types, abc, mod = build(repo, w)
                 kind, out = call(me, abc, mod, summ, types, "get_posterior_sample", N=4, tol=[0.25, 0.2], G=2)
